@@ -3,6 +3,7 @@ import PytezosModel.Proofs.InterpTables
 import PytezosModel.Proofs.InterpRefine
 import PytezosModel.Proofs.InterpGuard
 import PytezosModel.Proofs.InterpProgress
+import PytezosModel.Proofs.InterpUnpackPack
 /-! C01 — the interpreter computes the Michelson result, or fails with the FAILWITH value, that the
 reference semantics prescribes.
 
@@ -286,6 +287,56 @@ theorem strict_program_run (env : Env) (fuel : Nat) (i : Instr) (tr : TRes)
   welltyped_program_run env fuel i tr (strict_typing_is_typing i _ tr hty) hlit
     (strict_guard_never_fires env fuel i [] tr hty (by simp) hlit)
 
+/-- **`UNPACK t (PACK v) = Some v`** (extra theorem of extension 3).  For every type `t` UNPACK is modelled for (`Typing.unpackable`),
+every well-typed value `v` of type `t` whose strings are Michelson strings (`Interp.strOk`: printable ASCII and newlines — the
+typing of the model does not say it), and every environment: the bytes pytezos' PACK answers for `v` are turned back into
+`Some v` by its UNPACK at `t`.  (The reference semantics has the same property: `Interp.unpackV_packV`.) -/
+theorem unpack_pack (env : Env) (v : Val) (t : Ty) (bs : List Nat)
+    (hu : Typing.unpackable t = true) (hwf : WellFormed v) (ht : typeOf v = t) (hs : Interp.strOk v = true)
+    (hp : Impl.execPack v = .ok (.bytes bs)) : Impl.execUnpack env t (.bytes bs) = .ok (.some v) :=
+  Interp.execUnpack_execPack env false v t bs hu (ht ▸ hwf.1) hwf.2 hs hp
+
+/-- the same as a run of the machine: `PACK ; UNPACK t` on a stack with `v` on top leaves `Some v` on top — or fails at run time
+when the serialization reaches 2^32 bytes -/
+theorem pack_unpack_run (env : Env) (fuel : Nat) (v : Val) (t : Ty) (st : List Val)
+    (hu : Typing.unpackable t = true) (hwf : WellFormed v) (ht : typeOf v = t) (hs : Interp.strOk v = true) :
+    Impl.run env (fuel + 4) (.seq [.PACK, .UNPACK t]) (v :: st) = .ok (.some v :: st) ∨
+    Impl.run env (fuel + 4) (.seq [.PACK, .UNPACK t]) (v :: st) = .rtfail := by
+  have hev : Spec.eval true env (fuel + 4) (.seq [.PACK, .UNPACK t]) (v :: st)
+      = (Spec.packV v).bind fun r => (Spec.unpackV env t r).bind fun o => .ok (o :: st) := by
+    simp only [Spec.eval, Spec.evalSeq, Spec.step, Spec.stepMore, Spec.stepExt, Spec.unV, Res.bind]
+    cases Spec.packV v <;> simp
+    rename_i r
+    cases Spec.unpackV env t r <;> simp
+  cases hq : Spec.packV v with
+  | ok r =>
+    have hb : ∃ bs, r = .bytes bs := by
+      unfold Spec.packV at hq
+      split at hq
+      · cases hq
+      · split at hq
+        · cases hq
+        · split at hq
+          · exact ⟨_, (Res.ok.inj hq).symm⟩
+          · cases hq
+    obtain ⟨bs, rfl⟩ := hb
+    have hun := Interp.unpackV_packV env false v t bs hu (ht ▸ hwf.1) hwf.2 hs hq
+    exact Or.inl (run_ok env (fuel + 4) _ _ _ (by rw [hev, hq]; simp [Res.bind, hun]))
+  | rtfail => exact Or.inr (run_rtfail env (fuel + 4) _ _ (by rw [hev, hq]; rfl))
+  | stuck =>
+    exfalso
+    have hsome := Interp.optBoth_some false v (typeOf v) hwf.1 (by
+      have := hu; rw [← ht] at this
+      exact Interp.unpackable_packable this)
+    unfold Spec.packV at hq
+    rw [show Typing.packable (typeOf v) = true from Interp.unpackable_packable (ht ▸ hu)] at hq
+    cases hb : Spec.optBoth v with
+    | none => simp [hb] at hsome
+    | some y => simp only [Spec.optimized, hb, Option.map_some, Bool.not_true, Bool.false_eq_true, if_false] at hq; cases he : Spec.encodeM y.1 <;> simp [he] at hq
+  | failed _ => unfold Spec.packV at hq; split at hq <;> (try split at hq) <;> (try split at hq) <;> cases hq
+  | oof => unfold Spec.packV at hq; split at hq <;> (try split at hq) <;> (try split at hq) <;> cases hq
+  | offguard => unfold Spec.packV at hq; split at hq <;> (try split at hq) <;> (try split at hq) <;> cases hq
+
 /-- the stack discipline alone: DIP n / DIG n / DUG n / DUP n through `protect`/`restore` are `take`/`drop`
 on the visible stack, for every depth, stack and prefix -/
 theorem dip_n_spec (env : Env) (fuel n : Nat) (body : Instr) (pre st st' : List Val) (hn : n ≤ st.length)
@@ -470,6 +521,17 @@ example (rt : List Nat → Option Int) : Impl.run { env0 with readTimestamp := r
   run_ok _ 20 _ [] _ (by
     simp only [Spec.eval, Spec.evalSeq, Spec.step, Spec.stepMore, Spec.stepExt, Spec.unV, Spec.unpackV, Res.bind, Typing.unpackable]
     cases h : rt [48] <;> simp [show Spec.Micheline.decode Spec.knownPrim [1, 0, 0, 0, 1, 48] = some (.str [48]) from by rfl, Spec.readVal, h])
+-- non-vacuity of `unpack_pack`: a comb with a set, a string and a negative number go through PACK and UNPACK unchanged
+def vRT : Val := .pair (.set .nat [.num .nat 1, .num .nat 7]) (.pair (.str [104, 105]) (.num .int (-30)))
+def tRT : Ty := .pair (.set .nat) (.pair .string .int)
+example : Typing.unpackable tRT = true ∧ WellFormed vRT ∧ typeOf vRT = tRT ∧ Interp.strOk vRT = true := ⟨by rfl, ⟨by rfl, by rfl⟩, by rfl, by rfl⟩
+example : Impl.run env0 5 (.seq [.PACK, .UNPACK tRT]) [vRT] = .ok [.some vRT] := run_ok env0 5 _ _ _ (by rfl)
+example : Impl.run env0 5 (.seq [.PACK, .UNPACK (.pair .int (.pair .int (.pair .int .int)))])
+      [.pair (.num .int 1) (.pair (.num .int 2) (.pair (.num .int 3) (.num .int 4)))]
+    = .ok [.some (.pair (.num .int 1) (.pair (.num .int 2) (.pair (.num .int 3) (.num .int 4))))] := run_ok env0 5 _ _ _ (by rfl)
+-- the hypothesis on strings is needed: a string with a control character is a value of the model's `string`, PACK serializes
+-- it, and UNPACK (like the protocol) refuses to read it back
+example : Impl.run env0 5 (.seq [.PACK, .UNPACK .string]) [.str [1]] = .ok [.none .string] := run_ok env0 5 _ _ _ (by rfl)
 -- UNPACK at a type with composite set elements, at `address`, at a lambda type: not in the model (ill-typed there)
 example : Typing.typeInstr false (.UNPACK (.set (.pair .int .int))) [.bytes] = none := by rfl
 example : Typing.typeInstr false (.UNPACK .address) [.bytes] = none := by rfl
